@@ -5,7 +5,10 @@ seed=$(realpath "$1"); prop=$2; shift 2
 cd /repo || exit 2
 if ! git diff --quiet; then echo "/repo has uncommitted changes"; exit 2; fi
 git apply "$seed/patch.diff" || { echo "patch does not apply"; exit 2; }
+# the check rewrites evidence/<prop>.json; a run on a seeded tree must not replace the evidence of the unchanged tree
+ev=/verif/evidence/$prop.json; bak=$(mktemp); [ -f "$ev" ] && cp "$ev" "$bak"
 cd /verif && ./check "$prop" "$@" > /tmp/try_seed.out 2>&1; rc=$?
+[ -s "$bak" ] && cp "$bak" "$ev"; rm -f "$bak"
 git -C /repo checkout -- . ; git -C /repo clean -fdq -- . 2>/dev/null
 grep -E "^(VIOLATION|KNOWN-FINDING|ENGINE-MISMATCH|INCONCLUSIVE|C[0-9]+ tier)" /tmp/try_seed.out | cut -c1-400 | head -12
 echo "exit=$rc"
